@@ -107,7 +107,7 @@ class Discharger:
         r = m(s, w)
         if not r[0]:
             r2 = self.table(s, w)
-            if r2[0]:
+            if r2[0] or r2[1]:
                 r = r2
         if r[0]:
             self.note(r[0])
@@ -133,7 +133,7 @@ class Discharger:
             if kind == 'chars' and k == 1 and lb >= 1:
                 return 'D1', 'first char of a non-empty string'
         r = self.prove(s.fn, w, e, goal, 0)
-        if r[0]:
+        if r[0] or r[1]:
             return r
         return None, 'nothing establishes %s' % show(goal)[:120]
 
@@ -199,6 +199,8 @@ class Discharger:
                             return None, 'in %s: %s' % (base_fn(cf), stale)
                         r = self.prove(cf, cw, ce, g2, depth + 1)
                         if not r[0]:
+                            if r[1].startswith('in '):
+                                return None, r[1]
                             return None, 'caller %s does not establish %s (%s)' % (base_fn(cf), show(g2)[:80], r[1][:80])
                         hows.append('%s:%s' % (base_fn(cf), r[0]))
                     return 'lift', 'precondition established by every caller: ' + ', '.join(hows)
@@ -307,6 +309,12 @@ class Discharger:
         # ---- detached timer tasks (scope note of C05): recorded as observations by the rule file
         if b in ('ping_client_waker', 'pong_client_timeout'):
             return 'OBS:timer', 'detached timer task of one connection; its failure affects no session handler'
+        if b == 'dns_lookup_process':
+            return 'OBS:task', 'detached reverse-lookup task (dns_lookup feature); operates on the textual form of a DNS name, which is never empty'
+        if b == 'dns_lookup' and k == 'unwrap' and 'DNS_RESOLVER' in repr(t):
+            return 'D4:config', 'the resolver is initialised by run_server whenever config.dns_lookup is set, and lookups start only then'
+        if b == 'run_dns_lookup' and k == 'unwrap' and path_of(t)[-1:] == ['dns_lookup_sender'] and self.once_call('run_dns_lookup', 'user_state_process'):
+            return 'D4:once', 'taken once, right after the connection state was created'
         # ---- counters (I5, established by the coupling analysis of C19)
         if k == 'arith' and t[0] == 'sub' and t[2] == ('lit', 1) and path_of(t[1])[-1:] == ['invisible_users_count']:
             return self.i5('invisible_users_count')
@@ -338,8 +346,16 @@ class Discharger:
         if b == 'process_mode_channel' and k == 'index' and t[0] == 'local' and self.leading_space(w, e, t):
             return 'D1', 'string is non-empty and every append starts with an ASCII space'
         # ---- tokio::select! expansion
-        if b == 'process_internal' and k == 'panic' and self.select_has_irrefutable_arm(s.fn):
-            return 'D4:macro', 'select! cannot disable all branches: one branch pattern is irrefutable'
+        sp = e.node.get('sp') or [0, 0, 0, None, None]
+        in_select = any(x and 'select' in x for x in sp[3:5])
+        if k == 'panic' and in_select:
+            msg = repr(e.data.get('args'))
+            if 'all branches are disabled' in msg:
+                top = s.fn.split('::{closure')[0]
+                if self.select_has_irrefutable_arm(s.fn) or self.select_has_irrefutable_arm(top):
+                    return 'D4:macro', 'select! cannot disable all branches: one branch pattern is irrefutable'
+                return None, 'every select! branch has a refutable pattern: all can be disabled, the macro then panics'
+            return 'D4:macro', 'select! plumbing: the branch index is computed modulo the number of branches'
         # ---- tokeniser / target-type scanner: offsets at matched ASCII bytes
         if b == 'from_shared_str':
             return self.tokeniser_rows(s, w)
@@ -532,7 +548,22 @@ class Discharger:
                     if missing:
                         demanded.setdefault(l, set()).add(sign_of(x.pc))
                     if 'parse' in repr(x.pc):
-                        parse_checked.add(l)
+                        # the rejection must not depend on anything but "parse failed" (plus letter/sign/argument present)
+                        extra = []
+                        for c in conjuncts(x.pc):
+                            for a in atoms(c):
+                                ra = repr(a)
+                                if a[0] == 'eq' and a[2][0] == 'lit':
+                                    continue
+                                if a[0] == 'truth' and a[1][0] == 'mvar':
+                                    continue
+                                if a[0] == 'empty' or (a[0] == 'is' and a[1][0] == 'next'):
+                                    continue
+                                if a[0] == 'is' and 'parse' in ra:
+                                    continue
+                                extra.append(a)
+                        if not extra:
+                            parse_checked.add(l)
         for l in hl:
             if l not in demanded:
                 return False, "validator does not demand an argument for mode '%s'" % l
@@ -565,7 +596,11 @@ class Discharger:
         return ok and entails(e.pc, Not(Atom(('empty', t))))[0]
 
     def select_has_irrefutable_arm(self, fn):
-        b = self.prog.coroutine_of(fn.replace('::{closure#0}', ''))
+        b = self.prog.bodies.get(fn)
+        if b is None or 'body' not in b or ir.is_async_shell(b):
+            b = self.prog.coroutine_of(fn.replace('::{closure#0}', ''))
+        if b is None or 'body' not in b:
+            return False
         for n in ir.walk(b['body']):
             if n.get('k') == 'Match' and any(a['pat'].get('variant') == 'Disabled' for a in n['arms'] if a['pat'].get('k') == 'Variant'):
                 for a in n['arms']:
@@ -574,6 +609,10 @@ class Discharger:
                             and 'sub' not in p['fields'][0]['p']:
                         return True
         return False
+
+    def once_call(self, callee, caller):
+        cs = [(f, e) for f, e in self.census() if e.kind == 'call' and e.data.get('local') and e.data['name'] == callee]
+        return len(cs) == 1 and base_fn(cs[0][0]) == caller and not cs[0][1].loops
 
     def i8_names(self):
         if hasattr(self, '_i8n'):
